@@ -118,3 +118,13 @@ Definition torch_conv_params (e : Z) (stride padding dilation output_padding : l
 (* output extents: conv_output_size / conv_input_size (ConvUtils.h) *)
 Definition torch_conv_out (n k s p d : Z) : Z := (n + 2 * p - d * (k - 1) - 1) / s + 1.
 Definition torch_convT_out (n k s p d op : Z) : Z := (n - 1) * s - 2 * p + d * (k - 1) + op + 1.
+
+(* ------------------------------------------------------------------ prims.var(inp, dims, correction): dims are plain indices in [0, rank) without duplicates
+   (no wrapping of negative values); an empty list reduces every dimension; keepdim is always false *)
+Definition prims_dims_ok (r : Z) (dims : list Z) : bool := forallb (fun d => (0 <=? d) && (d <? r)) dims && nodupZ dims.
+Definition torch_prims_var_shape (s : list Z) (dims : list Z) : option (list Z) :=
+  if prims_dims_ok (zlen s) dims then Some (reduce_dims s 0 (match dims with [] => iota (zlen s) | _ => dims end) false) else None.
+Definition torch_prims_var_count (s : list Z) (dims : list Z) : option Z :=
+  if prims_dims_ok (zlen s) dims
+  then match dims with [] => Some (prodZ s) | _ => option_map prodZ (omap_all (nthZ s) dims) end
+  else None.
